@@ -1,6 +1,7 @@
 package main
 
 import (
+	"os"
 	"fmt"
 	"go/ast"
 	"go/token"
@@ -263,6 +264,9 @@ restart:
 		}
 		sort.Strings(names.scalars)
 		sort.Strings(names.bools)
+		if os.Getenv("GEOVERIF_E8_NAMES") != "" {
+			fmt.Fprintf(os.Stderr, "E8 %s\n  scalars: %q\n  bools: %q\n", row.id, names.scalars, names.bools)
+		}
 		groups := map[int][]string{}
 		for _, s := range names.scalars {
 			groups[row.group(s)] = append(groups[row.group(s)], s)
